@@ -390,7 +390,15 @@ class InRamRunner(RunnerBase):
       if len(got) != op['count']:
         return 'short:%d' % len(got)
     elif k == 'complete':
-      self._trial(op['id']).complete(vz.Measurement({'obj': 1.0}), infeasibility_reason=('bad' if op['id'] % 2 else '') if op.get('infeasible') else None)
+      reason = ('bad' if op['id'] % 2 else '') if op.get('infeasible') else None
+      if op.get('via') == 'copy':
+        # the documented hand-back: a completed COPY given to AddTrials replaces the ACTIVE trial of the same id
+        import copy as _copy
+        t = _copy.deepcopy(self._trial(op['id']))
+        t.complete(vz.Measurement({'obj': 1.0}), infeasibility_reason=reason)
+        self.sup.AddTrials([t])
+      else:
+        self._trial(op['id']).complete(vz.Measurement({'obj': 1.0}), infeasibility_reason=reason)
     elif k == 'add_completed':
       t = vz.Trial(parameters={'x': float(self.rec.token())})
       t.complete(vz.Measurement({'obj': 2.0}))
@@ -515,6 +523,8 @@ def gen_inram_history(rng, rr, length):
       cand = by('active', 'stopping')
       if cand:
         op = {'op': 'complete', 'id': rng.choice(cand), 'infeasible': rng.random() < 0.25}
+        if rng.random() < 0.4:
+          op['via'] = 'copy'
     elif r < 0.70:
       op = {'op': 'add_completed'}
     elif r < 0.77:
